@@ -85,6 +85,7 @@ type Trace struct {
 	Restarts  int                      `json:"restarts"`
 	WallMs    int64                    `json:"wall_ms"`
 	StallHits int                      `json:"stall_hits"`
+	Splits    int                      `json:"splits,omitempty"` // split commands proposed
 	// Probes: outcome quadruples (write at old leader / read at new leader / write at new
 	// leader / read at cut-off old leader) of the executed stale-read probes.
 	Probes []string `json:"probes,omitempty"`
@@ -103,6 +104,9 @@ func FlavorOf(caseIdx int) string {
 	}
 	if caseIdx%5 == 2 {
 		return "stale-leader-read"
+	}
+	if caseIdx%10 == 3 {
+		return "split-under-lag"
 	}
 	return ""
 }
@@ -127,6 +131,33 @@ func GenPlan(rng *rand.Rand, thorough bool, flavor string) Plan {
 		p.WritePct = 90
 		p.Steps = append(p.Steps, Step{AfterOps: 1, Action: "net-faults", Dup: 0.5, Delay: 2})
 		for at := 3 + rng.Intn(4); at < total-4; at += 3 + rng.Intn(6) {
+			p.Steps = append(p.Steps, Step{AfterOps: at, Action: "transfer-leader", Region: rng.Intn(p.Regions), Store: rng.Intn(3)})
+		}
+		return p
+	}
+	if flavor == "split-under-lag" {
+		// targeted pattern: a follower is cut off, writes go on, the region is split through its
+		// raft log (epoch change), more writes, then the follower is healed and catches up with
+		// writes and the split in one go. No restarts: a restarted store is re-created from the
+		// harness's static region table.
+		p.Flavor = flavor
+		p.StrayPct = 10
+		p.WritePct = 80
+		at := 4 + rng.Intn(6)
+		p.Steps = append(p.Steps, Step{AfterOps: at, Action: "isolate-follower", Region: 0})
+		at += 4 + rng.Intn(6)
+		p.Steps = append(p.Steps, Step{AfterOps: at, Action: "split", Region: 0})
+		at += 4 + rng.Intn(8)
+		p.Steps = append(p.Steps, Step{AfterOps: at, Action: "heal"})
+		if p.Regions == 2 {
+			at += 10 + rng.Intn(10)
+			p.Steps = append(p.Steps, Step{AfterOps: at, Action: "isolate-follower", Region: 1})
+			at += 4 + rng.Intn(6)
+			p.Steps = append(p.Steps, Step{AfterOps: at, Action: "split", Region: 1})
+			at += 4 + rng.Intn(8)
+			p.Steps = append(p.Steps, Step{AfterOps: at, Action: "heal"})
+		}
+		for at += 10; at < total-6; at += 12 + rng.Intn(12) {
 			p.Steps = append(p.Steps, Step{AfterOps: at, Action: "transfer-leader", Region: rng.Intn(p.Regions), Store: rng.Intn(3)})
 		}
 		return p
@@ -375,6 +406,10 @@ func Run(plan Plan, dir string, rng *rand.Rand, caughtUpWatchdog time.Duration) 
 		go func(ci int, crng *rand.Rand) {
 			defer wg.Done()
 			belief := map[uint64]int{}
+			epoch := map[uint64]*pb.RegionEpoch{} // what this client believes the region epochs are
+			for _, r := range regions {
+				epoch[r.ID] = Epoch()
+			}
 			for _, r := range regions {
 				if l, _, ok := cl.Leader(r.ID); ok {
 					belief[r.ID] = l
@@ -396,6 +431,7 @@ func Run(plan Plan, dir string, rng *rand.Rand, caughtUpWatchdog time.Duration) 
 					op.Marker = fmt.Sprintf("m-c%d-n%d", ci, n)
 					ts := tsCounter.Add(2)
 					req := WriteRequest(reg, key, op.Marker, ts)
+					req.Header.RegionEpoch = epoch[reg]
 					op.Call = cl.Now()
 					res = cl.Propose(target, req)
 					op.Ret = cl.Now()
@@ -408,10 +444,23 @@ func Run(plan Plan, dir string, rng *rand.Rand, caughtUpWatchdog time.Duration) 
 				} else {
 					op.Kind = "read"
 					req := ReadRequest(reg, key)
+					req.Header.RegionEpoch = epoch[reg]
 					op.Call = cl.Now()
 					res = cl.Read(target, req)
 					op.Ret = cl.Now()
 					op.Outcome, op.ErrText, op.Value, op.Absent = classifyRead(res)
+				}
+				if op.Outcome == "epoch" {
+					// like a real client: take the current epoch from the error
+					en := res.Resp.GetRegionError().GetEpochNotMatch()
+					if ce := en.GetCurrentEpoch(); ce != nil {
+						epoch[reg] = &pb.RegionEpoch{Version: ce.GetVersion(), ConfVer: ce.GetConfVer()}
+					}
+					for _, m := range en.GetRegions() {
+						if m.GetId() == reg {
+							epoch[reg] = &pb.RegionEpoch{Version: m.GetEpochVersion(), ConfVer: m.GetEpochConfVersion()}
+						}
+					}
 				}
 				op.Inc = res.Incarnation
 				// follow hints like a real client
@@ -610,6 +659,22 @@ func Run(plan Plan, dir string, rng *rand.Rand, caughtUpWatchdog time.Duration) 
 					tr.Ops = append(tr.Ops, op)
 				}
 				opsMu.Unlock()
+			case "isolate-follower":
+				if l, _, ok := cl.Leader(reg); ok {
+					f := (l + 1 + int(done.Load())%2) % 3
+					cl.Isolate(f)
+					ev.Note = fmt.Sprintf("region %d: follower store %d isolated (leader %d)", reg, f, l)
+				} else {
+					ev.Note = "no leader"
+				}
+			case "split":
+				splitKey := []byte("k")
+				if reg == 2 {
+					splitKey = []byte("zzz")
+				}
+				err := cl.Split(reg, reg+10, splitKey)
+				tr.Splits++
+				ev.Note = fmt.Sprintf("region %d split at %q into %d and %d: err=%v", reg, splitKey, reg, reg+10, err)
 			case "isolate-store":
 				cl.Isolate(s.Store)
 				ev.Note = fmt.Sprintf("store %d", s.Store)
